@@ -493,6 +493,8 @@ func (fv *FnV) contractCall(st *State, call *ast.CallExpr, key string, fd *ast.F
 				}
 			}
 		}
+		// which of the callee's returns was taken is not known to the caller
+		post["returnIndex"] = fv.freshVal("retidx", types.Typ[types.Int], st)
 		for _, cl := range fc.Ensures {
 			if cl.Kind == "expect" {
 				continue
@@ -673,6 +675,7 @@ func VerifyFunc(prog *Program, smt *SMT, eff *Effects, key string, fc *FuncContr
 				}
 				extra[name] = ev
 			}
+			extra["returnIndex"] = Val{fmt.Sprintf("%d", returnOrdinal(fd, r.pos)), types.Typ[types.Int]}
 			for i, cl := range fc.Ensures {
 				g := fv.evalClause(r.st, cl, nil, extra)
 				lab := cl.Label
@@ -721,3 +724,26 @@ type posNode token.Pos
 func (p posNode) Pos() token.Pos { return token.Pos(p) }
 func (p posNode) End() token.Pos { return token.Pos(p) }
 func nodeAt(p token.Pos) ast.Node { return posNode(p) }
+
+// returnOrdinal: the source-order index of the return statement at pos among the function's own return statements
+// (function literals excluded); the closing brace gets the number after the last one
+func returnOrdinal(fd *ast.FuncDecl, pos token.Pos) int {
+	n := 0
+	found := -1
+	ast.Inspect(fd.Body, func(m ast.Node) bool {
+		switch x := m.(type) {
+		case *ast.FuncLit:
+			return false
+		case *ast.ReturnStmt:
+			if x.Pos() == pos {
+				found = n
+			}
+			n++
+		}
+		return true
+	})
+	if found < 0 {
+		return n
+	}
+	return found
+}
